@@ -311,6 +311,48 @@ fn run_point_entropy(cx: &mut CaseCx, case: &Value) {
   cx.sample(json!({"t": t, "entropy_bytes_consumed": used, "distinct_points": seen.len()}));
 }
 
+
+/// one generator object whose (public) measurement field is reassigned between calls behaves like a fresh client
+fn run_generator_reuse(cx: &mut CaseCx, _case: &Value) {
+  let ss = strings(true);
+  for t in [1u32, 2, 3] {
+    for (i, a) in ss.iter().enumerate().take(40) {
+      let b = &ss[(i * 7 + 3) % ss.len()];
+      let e = &ss[(i * 5 + 1) % ss.len()];
+      if a == b {
+        continue;
+      }
+      cx.eval();
+      cx.nontrivial(fnv_str(&format!("{}|{}", t, i)));
+      let mut mg = MessageGenerator::new(SingleMeasurement::new(a), t, e);
+      let mut r1 = [0u8; 32];
+      mg.sample_local_randomness(&mut r1);
+      let w1 = mg.share_with_local_randomness().map(|w| (w.key, w.tag)).ok();
+      // history: the same object now reports another measurement
+      mg.x = SingleMeasurement::new(b);
+      let mut r2 = [0u8; 32];
+      mg.sample_local_randomness(&mut r2);
+      let w2 = mg.share_with_local_randomness().map(|w| (w.key, w.tag)).ok();
+      let fresh = MessageGenerator::new(SingleMeasurement::new(b), t, e);
+      let mut rf = [0u8; 32];
+      fresh.sample_local_randomness(&mut rf);
+      let wf = fresh.share_with_local_randomness().map(|w| (w.key, w.tag)).ok();
+      let d = || json!({"first_measurement": hexs(a), "second_measurement": hexs(b), "epoch": hexs(e), "t": t});
+      if r1 != rnd_of(a, e, t) {
+        cx.viol("C04/generator-history", "randomness of a generator differs from an independent client's", d());
+      }
+      if r2 != rf || w2 != wf {
+        cx.viol("C04/generator-history", "after its measurement was reassigned, a generator still derives the randomness / tag / key of its EARLIER measurement: it disagrees with an independent client of the new measurement", d());
+      }
+      if w1 == w2 && w1.is_some() {
+        cx.viol("C04/generator-history", "two different measurements on one generator object give equal tags and keys", d());
+      }
+      cx.count("reuse_checked", 1);
+    }
+  }
+  cx.outcome("generator reuse");
+}
+
 pub fn spec() -> PropSpec {
   PropSpec {
     id: "C04",
@@ -351,6 +393,13 @@ pub fn spec() -> PropSpec {
         },
         run: run_clients,
         min_counts: &[("combinable_subsets", 50)],
+      },
+      Check {
+        name: "generator-reuse",
+        rule: "history on one MessageGenerator object: sample/share, reassign the public measurement field, sample/share again: randomness, tag and key must equal those of a fresh independent client of the new measurement (120 measurement pairs x t in 1..3)",
+        gen: |_| vec![json!({})],
+        run: run_generator_reuse,
+        min_counts: &[("reuse_checked", 100)],
       },
       Check {
         name: "share-point-entropy",
